@@ -48,7 +48,7 @@ def gen_block(g, idx, atypes):
     return {"name": name, "atoms": atoms, "inter": inter, "nrexcl": g.choice([1, 1, 1, 2, 3])}
 
 
-def gen_ff(g, nblocks=None, uniform_nrexcl=True):
+def gen_ff(g, nblocks=None, uniform_nrexcl=True, itp_p=0.2):
     atypes = [f"P{i}" for i in range(g.randint(1, 3))]
     nblocks = nblocks or g.randint(1, 3)
     blocks = [gen_block(g, i, atypes) for i in range(nblocks)]
@@ -58,7 +58,19 @@ def gen_ff(g, nblocks=None, uniform_nrexcl=True):
     names = [b["name"] for b in blocks]
     links = []
     for X in blocks:
+        # polyply .itp input syntax: monomer file whose interactions may point into the next residue
+        # (atom index > number of atoms); stands for the X-X next-residue link
+        X["itp"] = itp_p > 0 and g.random() < itp_p
+        if X["itp"]:
+            n = len(X["atoms"])
+            X["dangling"] = {"bonds": [{"atoms": [n - 1, n], "params": ["1", str(round(g.uniform(0.3, 0.5), 3)), "4500"],
+                                        "meta": {}}]}
+            if n >= 2 and g.random() < 0.5:
+                X["dangling"]["angles"] = [{"atoms": [n - 2, n - 1, n], "params": ["1", "125", "35"], "meta": {}}]
+    for X in blocks:
         for Y in blocks:
+            if X is Y and X.get("itp"):
+                continue
             lx = X["atoms"][-1]["name"]
             fy = Y["atoms"][0]["name"]
             if g.random() < 0.25:
@@ -99,6 +111,10 @@ def gen_ff(g, nblocks=None, uniform_nrexcl=True):
     for it in items:
         files[g.randrange(nfiles)].append(it)
     files = [f for f in files if f]
+    # .itp blocks live in files of their own (other parser)
+    itp_items = [it for f in files for it in f if it[0] == "block" and blocks[it[1]].get("itp")]
+    files = [[it for it in f if it not in itp_items] for f in files]
+    files = [f for f in files if f] + [[it] for it in itp_items]
     return {"atypes": atypes, "blocks": blocks, "links": links, "files": files}
 
 
@@ -115,10 +131,23 @@ def render_item(ff, item):
         for k, a in enumerate(b["atoms"]):
             out.append(f"{k + 1} {a['atype']} 1 {b['name']} {a['name']} {a['cgnr']} {a['charge']} {a['mass']}")
         for sec in ("bonds", "constraints", "angles", "dihedrals"):
-            if b["inter"][sec]:
+            its = list(b["inter"][sec])
+            if b.get("itp"):
+                its += b.get("dangling", {}).get(sec, [])
+            if its:
                 out.append(f"[ {sec} ]")
-                for it in b["inter"][sec]:
-                    out.append(" ".join(str(x + 1) for x in it["atoms"]) + " " + " ".join(it["params"]) + _meta_str(it["meta"]))
+                if b.get("itp"):
+                    # plain .itp syntax: conditional interactions between #ifdef/#ifndef ... #endif lines
+                    for it in its:
+                        line = " ".join(str(x + 1) for x in it["atoms"]) + " " + " ".join(it["params"])
+                        if it["meta"]:
+                            (cond, tag), = it["meta"].items()
+                            out += [f"#{cond} {tag}", line, "#endif"]
+                        else:
+                            out.append(line)
+                else:
+                    for it in its:
+                        out.append(" ".join(str(x + 1) for x in it["atoms"]) + " " + " ".join(it["params"]) + _meta_str(it["meta"]))
     else:
         l = ff["links"][i]
         out += ["[ link ]", 'resname "' + "|".join(l["resnames"]) + '"']
@@ -138,7 +167,8 @@ def render_files(ff, file_order=None, item_orders=None):
         items = files[fi]
         if item_orders and item_orders.get(str(fi)):
             items = [items[k] for k in item_orders[str(fi)]]
-        out.append((f"ff{fi}.ff", "\n".join(render_item(ff, it) for it in items)))
+        is_itp = len(items) == 1 and items[0][0] == "block" and ff["blocks"][items[0][1]].get("itp")
+        out.append((f"ff{fi}." + ("itp" if is_itp else "ff"), "\n".join(render_item(ff, it) for it in items)))
     return out
 
 
